@@ -5,11 +5,12 @@ ROOT = os.path.dirname(os.path.dirname(os.path.abspath(__file__)))
 props = [json.loads(l) for l in open(os.path.join(ROOT, "properties.jsonl")) if l.strip()]
 na_path = os.path.join(ROOT, "not_applicable.json")
 na_reasons = json.load(open(na_path)) if os.path.exists(na_path) else {}
+ready = set(json.load(open(os.path.join(ROOT, "ready.json"))))  # checks verified green on the unchanged tree
 checks, na = [], []
 for p in props:
     pid = p["id"]
     plan_p = os.path.join(ROOT, "harness", pid.lower(), "plan.json")
-    if os.path.exists(plan_p) and pid not in na_reasons:
+    if os.path.exists(plan_p) and pid in ready and pid not in na_reasons:
         plan = json.load(open(plan_p))
         m = plan.get("manifest", {})
         c = {
